@@ -66,6 +66,8 @@ Qed.
 (* ------------------------------------------------------------------------------------------------ *)
 Lemma comp_flags_length k user : length (comp_flags k user) = S (length (k_subs k)).
 Proof. unfold comp_flags, comp_flags_with. cbn. rewrite map_length. reflexivity. Qed.
+Lemma comp_attrs_length k : length (comp_attrs k) = S (length (k_subs k)).
+Proof. unfold comp_attrs. cbn. rewrite map_length. reflexivity. Qed.
 
 Theorem scan_sound k o user i : usage k o user = Chosen i false -> op_flags o <> 0 ->
   exists f, nth_error (comp_flags k user) i = Some (FOk f) /\ Z.land (op_flags o) f <> 0.
@@ -133,30 +135,31 @@ Theorem primary_certifies uids user f : flags_primary uids user = FOk f -> Z.lan
 Proof.
   unfold flags_primary, flags_primary_with. destruct user as [s|].
   - destruct (get_uid uids s); [|discriminate]. intros [= <-]. apply land_certify_lor.
-  - destruct uids; intros [= <-]; [discriminate|apply land_certify_lor].
+  - destruct uids; [intros [= <-]; discriminate|].
+    destruct (default_uid _ _); [|discriminate]. intros [= <-]. apply land_certify_lor.
 Qed.
 
 (* ------------------------------------------------------------------------------------------------ *)
 (* preconditions                                                                                     *)
 (* ------------------------------------------------------------------------------------------------ *)
-Lemma check_attributes_spec k o :
-  check_attributes k o =
+Lemma check_attributes_spec a o :
+  check_attributes a o =
   match o with
-  | OEncrypt => if is_public k then None else Some IsPublic
-  | _ => if negb (is_unlocked k) then Some IsUnlocked else if is_public k then Some IsPublic else None
+  | OEncrypt => if is_public a then None else Some IsPublic
+  | _ => if negb (is_unlocked a) then Some IsUnlocked else if is_public a then Some IsPublic else None
   end.
 Proof.
-  unfold check_attributes. destruct o; cbn; destruct (is_unlocked k); destruct (is_public k); reflexivity.
+  unfold check_attributes. destruct o; cbn; destruct (is_unlocked a); destruct (is_public a); reflexivity.
 Qed.
 
-(* the four key forms *)
+(* the four forms of ONE key object (the receiver or a subkey) *)
 Inductive form := FPublic | FPrivate | FLocked | FUnlocked.
-Definition has_form (k : pkey) (f : form) : Prop :=
+Definition has_form (a : cattr) (f : form) : Prop :=
   match f with
-  | FPublic => k_public k = true
-  | FPrivate => k_public k = false /\ k_protected k = false
-  | FLocked => k_public k = false /\ k_protected k = true /\ k_unl k = false
-  | FUnlocked => k_public k = false /\ k_protected k = true /\ k_unl k = true
+  | FPublic => a_public a = true
+  | FPrivate => a_public a = false /\ a_protected a = false
+  | FLocked => a_public a = false /\ a_protected a = true /\ a_unl a = false
+  | FUnlocked => a_public a = false /\ a_protected a = true /\ a_unl a = true
   end.
 Definition matrix (f : form) (o : oper) : option attr :=
   match f, o with
@@ -167,12 +170,12 @@ Definition matrix (f : form) (o : oper) : option attr :=
   | _, OEncrypt => Some IsPublic
   | _, _ => None
   end.
-Lemma every_key_has_a_form k : exists f, has_form k f.
+Lemma every_key_has_a_form a : exists f, has_form a f.
 Proof.
-  destruct (k_public k) eqn:A; [exists FPublic; exact A|]. destruct (k_protected k) eqn:B; [|exists FPrivate; cbn; auto].
-  destruct (k_unl k) eqn:C; [exists FUnlocked|exists FLocked]; cbn; auto.
+  destruct (a_public a) eqn:A; [exists FPublic; exact A|]. destruct (a_protected a) eqn:B; [|exists FPrivate; cbn; auto].
+  destruct (a_unl a) eqn:C; [exists FUnlocked|exists FLocked]; cbn; auto.
 Qed.
-Theorem precondition_matrix k f o : has_form k f -> check_attributes k o = matrix f o.
+Theorem precondition_matrix a f o : has_form a f -> check_attributes a o = matrix f o.
 Proof.
   intros H. rewrite check_attributes_spec. unfold is_unlocked, is_protected, is_public.
   destruct f; cbn in H; repeat match goal with H : _ /\ _ |- _ => destruct H end;
@@ -188,43 +191,127 @@ Theorem no_identity_only_certify k o user : k_present k = true -> k_primary k = 
 Proof.
   intros Hp Hpr Hu. unfold perform, perform_with. rewrite Hp, Hpr, Hu. cbn [negb length Nat.eqb andb].
   destruct o; cbn [is_certify negb]; split; try congruence; try (intros; reflexivity).
-  intros H _. revert H.
-  unfold usage_with. cbn. unfold comp_flags_with. rewrite Hpr, Hu. unfold flags_primary_with.
-  destruct user as [s|]; cbn; [discriminate|]. destruct (check_attributes k OCertify); discriminate.
+  intros H _. revert H. cbn [rules_now r_usercheck r_onchosen andb].
+  destruct (user_unknown _ user); [discriminate|].
+  destruct (usage_with _ _ OCertify user) as [i w| |c]; try discriminate.
+  destruct (check_attributes _ OCertify); discriminate.
 Qed.
-(* ... and its first self-certification goes through on the primary key when the key form allows *)
+(* ... and its first self-certification goes through on the primary key when its form allows *)
 Theorem no_identity_first_certification k : k_present k = true -> k_primary k = true -> k_uids k = [] ->
-  perform k OCertify None = match check_attributes k OCertify with Some a => BadAttr a | None => Run 0 false end.
+  perform k OCertify None = match check_attributes (k_attr k) OCertify with Some a => BadAttr a | None => Run 0 false end.
 Proof.
   intros Hp Hpr Hu. unfold perform, perform_with. rewrite Hp, Hpr, Hu. cbn [negb length Nat.eqb andb is_certify].
   unfold usage_with. cbn. unfold comp_flags_with. rewrite Hpr, Hu. cbn. reflexivity.
 Qed.
 
-(* what it takes for the method body to run, and on which component *)
+(* an unknown user= is a refusal (PGPError), whatever the operation *)
+Theorem unknown_user_refused k o user : k_present k = true -> (k_uids k <> [] \/ k_primary k = false \/ o = OCertify) ->
+  user_unknown k user = true -> perform k o user = NoUser.
+Proof.
+  intros Hp Hc Hu. unfold perform, perform_with. rewrite Hp. cbn [negb].
+  destruct ((length (k_uids k) =? 0)%nat && k_primary k && negb (is_certify o)) eqn:E.
+  - exfalso. apply andb_true_iff in E as [E E3]. apply andb_true_iff in E as [E1 E2]. destruct Hc as [Hc|[Hc|Hc]].
+    + destruct (k_uids k); [congruence|discriminate].
+    + congruence.
+    + subst o. discriminate.
+  - cbn [rules_now r_usercheck andb]. rewrite Hu. reflexivity.
+Qed.
+
+(* what it takes for the method body to run, and on which component: the conditions hold for THAT component *)
 Theorem run_requires k o user i w : perform k o user = Run i w ->
-  k_present k = true /\ (k_uids k <> [] \/ k_primary k = false \/ o = OCertify) /\
-  usage k o user = Chosen i w /\ check_attributes k o = None.
+  k_present k = true /\ (k_uids k <> [] \/ k_primary k = false \/ o = OCertify) /\ user_unknown k user = false /\
+  usage k o user = Chosen i w /\ check_attributes (comp_attr k i) o = None.
 Proof.
   unfold perform, perform_with. destruct (k_present k); cbn [negb]; [|discriminate].
   destruct ((length (k_uids k) =? 0)%nat && k_primary k && negb (is_certify o)) eqn:E; [discriminate|].
-  fold (usage k o user). destruct (usage k o user) as [j w'| |c] eqn:U; try discriminate.
-  destruct (check_attributes k o) eqn:A; [discriminate|]. intros [= <- <-]. repeat split; auto.
+  cbn [rules_now r_usercheck r_onchosen andb]. destruct (user_unknown k user); [discriminate|].
+  fold rules_now. fold (usage k o user). destruct (usage k o user) as [j w'| |c] eqn:U; try discriminate.
+  destruct (check_attributes (comp_attr k j) o) eqn:A; [discriminate|]. intros [= <- <-]. repeat split; auto.
   apply andb_false_iff in E as [E|E]; [apply andb_false_iff in E as [E|E]|].
   - left. intro H. rewrite H in E. discriminate.
   - right. left. exact E.
   - right. right. destruct o; try discriminate. reflexivity.
 Qed.
 
-(* private operations refuse on public and on locked keys; public-key encryption refuses on private keys *)
-Theorem private_ops_refuse k o user i w : o <> OEncrypt -> (is_public k = true \/ is_unlocked k = false) -> perform k o user <> Run i w.
+(* the component usage() yields is one of the components of the receiver *)
+Lemma scan_index req : forall l idx last, (last <= idx)%nat ->
+  match scan req l idx last with
+  | Found j => (idx <= j < idx + length l)%nat
+  | Exhausted n => (n = last /\ l = []) \/ (idx <= n < idx + length l)%nat
+  | ScanCrash _ => True
+  end.
 Proof.
-  intros Ho Hk H. apply run_requires in H as (_ & _ & _ & A). rewrite check_attributes_spec in A.
-  destruct o; try congruence; destruct Hk as [Hk|Hk]; rewrite Hk in A; cbn in A; try discriminate;
-    destruct (is_unlocked k); discriminate.
+  induction l as [|x r IH]; intros idx last Hl; cbn [scan length]; [left; auto|].
+  destruct x as [f|c]; [|exact I]. destruct (Z.land req f =? 0).
+  - specialize (IH (S idx) idx (Nat.le_succ_diag_r idx)). destruct (scan req r (S idx) idx) as [j|n|c]; [lia| |exact I].
+    right. destruct IH as [[-> ->]|IH]; cbn [length]; lia.
+  - lia.
 Qed.
-Theorem encrypt_refuses_private k user i w : is_public k = false -> perform k OEncrypt user <> Run i w.
+Theorem usage_index_valid k o user i w : usage k o user = Chosen i w -> (i < length (comp_attrs k))%nat.
 Proof.
-  intros Hk H. apply run_requires in H as (_ & _ & _ & A). rewrite check_attributes_spec, Hk in A. discriminate.
+  unfold usage, usage_with. rewrite comp_attrs_length. destruct (op_flags o =? 0); [intros [= <- <-]; lia|].
+  fold (comp_flags k user). pose proof (scan_index (op_flags o) (comp_flags k user) 0 0 (Nat.le_refl 0)) as H.
+  pose proof (comp_flags_length k user) as HL.
+  destruct (scan (op_flags o) (comp_flags k user) 0 0) as [j|n|c].
+  - intros [= <- <-]. lia.
+  - destruct (k_enforce k); [discriminate|]. intros [= <- <-]. destruct H as [[_ H]|H]; [rewrite H in HL; discriminate|lia].
+  - discriminate.
+Qed.
+
+(* a private operation (everything but encrypt) runs only on a component that is a private key object and unlocked;
+   public-key encryption runs only on a public key object -- whichever component the receiver is *)
+Theorem private_op_runs_only_on_unlocked_private_component k o user i w : o <> OEncrypt -> perform k o user = Run i w ->
+  (i < length (comp_attrs k))%nat /\ is_public (comp_attr k i) = false /\ is_unlocked (comp_attr k i) = true.
+Proof.
+  intros Ho H. apply run_requires in H as (_ & _ & _ & U & A). split; [exact (usage_index_valid k o user i w U)|].
+  rewrite check_attributes_spec in A.
+  destruct o; try congruence; destruct (is_unlocked (comp_attr k i)), (is_public (comp_attr k i)); cbn in A; try discriminate; auto.
+Qed.
+Theorem encrypt_runs_only_on_public_component k user i w : perform k OEncrypt user = Run i w ->
+  (i < length (comp_attrs k))%nat /\ is_public (comp_attr k i) = true.
+Proof.
+  intros H. apply run_requires in H as (_ & _ & _ & U & A). split; [exact (usage_index_valid k _ user i w U)|].
+  rewrite check_attributes_spec in A. destruct (is_public (comp_attr k i)); [reflexivity|discriminate].
+Qed.
+(* the contrapositive forms of before, now about the chosen component *)
+Theorem private_ops_refuse k o user i w : o <> OEncrypt -> (is_public (comp_attr k i) = true \/ is_unlocked (comp_attr k i) = false) ->
+  perform k o user <> Run i w.
+Proof.
+  intros Ho Hk H. destruct (private_op_runs_only_on_unlocked_private_component k o user i w Ho H) as (_ & A & B).
+  destruct Hk; congruence.
+Qed.
+Theorem encrypt_refuses_private k user i w : is_public (comp_attr k i) = false -> perform k OEncrypt user <> Run i w.
+Proof. intros Hk H. destruct (encrypt_runs_only_on_public_component k user i w H) as [_ A]. congruence. Qed.
+
+(* no outcome of the code as it is now is an exception other than PGPError *)
+Lemma flags_sub_now_ok sigs : exists f, flags_sub_with rules_now sigs = FOk f.
+Proof. unfold flags_sub_with. cbn [rules_now r_pick r_nobind]. destruct (newest sigs) as [s|]; eauto. Qed.
+Lemma scan_no_crash req : forall l idx last, Forall (fun x => exists f, x = FOk f) l -> forall c, scan req l idx last <> ScanCrash c.
+Proof.
+  induction l as [|x r IH]; intros idx last H c; cbn [scan]; [discriminate|].
+  inversion H as [|? ? [f ->] Hr]; subst. destruct (Z.land req f =? 0); [apply IH; exact Hr|discriminate].
+Qed.
+Lemma comp_flags_now_ok k user : user_unknown k user = false -> Forall (fun x => exists f, x = FOk f) (comp_flags k user).
+Proof.
+  intros Hu. unfold comp_flags, comp_flags_with. constructor.
+  - destruct (k_primary k); [|apply flags_sub_now_ok]. unfold flags_primary_with, user_unknown in *. destruct user as [s|].
+    + destruct (get_uid (k_uids k) s); [eauto|discriminate].
+    + destruct (k_uids k) as [|u r] eqn:E; [eauto|]. unfold default_uid. cbn [rules_now r_uafallback].
+      destruct (filter u_text (u :: r)); cbn [hd_error]; eauto.
+  - apply Forall_forall. intros x Hx. apply in_map_iff in Hx as [s [<- _]]. apply flags_sub_now_ok.
+Qed.
+Theorem no_crash k o user c : perform k o user <> Crash c.
+Proof.
+  unfold perform, perform_with. destruct (negb (k_present k)); [discriminate|].
+  destruct ((length (k_uids k) =? 0)%nat && k_primary k && negb (is_certify o)); [discriminate|].
+  cbn [rules_now r_usercheck r_onchosen andb]. destruct (user_unknown k user) eqn:Hu; [discriminate|].
+  fold rules_now. unfold usage_with. destruct (op_flags o =? 0).
+  - destruct (check_attributes _ o); discriminate.
+  - fold (comp_flags k user). pose proof (scan_no_crash (op_flags o) _ 0%nat 0%nat (comp_flags_now_ok k user Hu)) as N.
+    destruct (scan (op_flags o) (comp_flags k user) 0 0) as [j|n|c'].
+    + destruct (check_attributes _ o); discriminate.
+    + destruct (k_enforce k); [discriminate|]. destruct (check_attributes _ o); discriminate.
+    + exfalso. exact (N c' eq_refl).
 Qed.
 
 (* end to end, enforcement on: if the method runs for an operation that needs a flag, it runs on the first component (primary,
@@ -234,7 +321,7 @@ Theorem run_uses_first_capable k o user i w : k_enforce k = true -> op_flags o <
   (exists f, nth_error (comp_flags k user) i = Some (FOk f) /\ Z.land (op_flags o) f <> 0) /\
   (forall m, (m < i)%nat -> exists x, nth_error (comp_flags k user) m = Some x /\ incapable (op_flags o) x).
 Proof.
-  intros He Hreq H. apply run_requires in H as (_ & _ & U & _).
+  intros He Hreq H. apply run_requires in H as (_ & _ & _ & U & _).
   destruct w.
   - apply warned_only_when_off_and_none in U as [He' _]. congruence.
   - split; [reflexivity|]. split; [apply (scan_sound k o user i U Hreq)|apply (scan_first_capable k o user i U Hreq)].
@@ -289,17 +376,31 @@ Proof.
   repeat split; auto. intros s' Hin Hq' Hc'. apply H3; [exact Hin|]. cbv beta. rewrite Hc', Hq'. reflexivity.
 Qed.
 
+(* a subkey's flags are those of a qualifying binding signature of maximal creation time; the empty set when none qualifies *)
 Theorem flags_most_recent sigs f : StronglySorted by_created sigs -> flags_sub sigs = FOk f ->
-  exists s, In s sigs /\ s_qual s = true /\ s_flags s = f /\
-            forall s', In s' sigs -> s_qual s' = true -> s_created s' <= s_created s.
+  (exists s, In s sigs /\ s_qual s = true /\ s_flags s = f /\
+             forall s', In s' sigs -> s_qual s' = true -> s_created s' <= s_created s)
+  \/ ((forall s, In s sigs -> s_qual s = false) /\ f = 0).
 Proof.
-  intros Hs. unfold flags_sub, flags_sub_with. destruct (newest sigs) as [s|] eqn:E; [|discriminate].
-  intros [= <-]. destruct (newest_most_recent _ _ Hs E) as (H1 & H2 & H3). exists s. auto.
+  intros Hs. unfold flags_sub, flags_sub_with. cbn [rules_now r_pick r_nobind]. destruct (newest sigs) as [s|] eqn:E.
+  - intros [= <-]. left. destruct (newest_most_recent _ _ Hs E) as (H1 & H2 & H3). exists s. auto.
+  - intros [= <-]. right. split; [|reflexivity]. apply find_rev_none. exact E.
 Qed.
 
-Theorem flags_sub_crash_iff sigs : flags_sub sigs = FCrash CrashNoBinding <-> forall s, In s sigs -> s_qual s = false.
+Theorem flags_sub_total sigs : exists f, flags_sub sigs = FOk f.
+Proof. apply flags_sub_now_ok. Qed.
+
+Theorem flags_sub_unbound sigs : (forall s, In s sigs -> s_qual s = false) -> flags_sub sigs = FOk 0.
 Proof.
-  unfold flags_sub, flags_sub_with, newest. split.
+  intros H. unfold flags_sub, flags_sub_with. cbn [rules_now r_pick r_nobind]. unfold newest.
+  destruct (find s_qual (rev sigs)) as [s|] eqn:E; [|reflexivity].
+  apply find_some in E as [E1 E2]. apply in_rev in E1. rewrite (H s E1) in E2. discriminate.
+Qed.
+
+(* before repair a0cb78f that case raised *)
+Theorem flags_sub_old_crash_iff sigs : flags_sub_with rules_old_crash sigs = FCrash CrashNoBinding <-> forall s, In s sigs -> s_qual s = false.
+Proof.
+  unfold flags_sub_with. cbn [rules_old_crash r_pick r_nobind]. unfold newest. split.
   - destruct (find s_qual (rev sigs)) eqn:E; [discriminate|]. intros _. apply find_rev_none. exact E.
   - intros H. destruct (find s_qual (rev sigs)) as [s|] eqn:E; [|reflexivity].
     apply find_some in E as [E1 E2]. apply in_rev in E1. rewrite (H s E1) in E2. discriminate.
@@ -318,8 +419,8 @@ Qed.
 
 (* a signature that is not a certification (a certification revocation, an attestation), wherever it stands among the signatures of
    the user id and whatever flags it carries, does not change the flags read from the user id *)
-Theorem selfsig_ignores_noncert ids l1 x l2 : s_cert x = false ->
-  selfsig_flags {| u_ids := ids; u_sigs := l1 ++ x :: l2 |} = selfsig_flags {| u_ids := ids; u_sigs := l1 ++ l2 |}.
+Theorem selfsig_ignores_noncert tx ids l1 x l2 : s_cert x = false ->
+  selfsig_flags {| u_text := tx; u_ids := ids; u_sigs := l1 ++ x :: l2 |} = selfsig_flags {| u_text := tx; u_ids := ids; u_sigs := l1 ++ l2 |}.
 Proof.
   intros Hx. unfold selfsig_flags, selfsig_flags_with, newest_cert. cbn [u_sigs].
   rewrite !rev_app_distr. cbn [rev]. rewrite <- app_assoc, !find_app. cbn [app find]. rewrite Hx. reflexivity.
@@ -331,12 +432,12 @@ Qed.
 Definition cert_then_rev (fc fr : Z) : list sigr :=
   [ {| s_created := 0; s_flags := fc; s_qual := true; s_cert := true |}; {| s_created := 5; s_flags := fr; s_qual := true; s_cert := false |} ].
 Definition rev_key (fc fr : Z) : pkey :=
-  {| k_present := true; k_primary := true; k_uids := [ {| u_ids := [97]; u_sigs := cert_then_rev fc fr |} ];
-     k_bind := []; k_subs := []; k_public := false; k_protected := false; k_unl := false; k_enforce := true |}.
+  {| k_present := true; k_primary := true; k_uids := [ {| u_text := true; u_ids := [97]; u_sigs := cert_then_rev fc fr |} ];
+     k_bind := []; k_subs := []; k_attr := {| a_public := false; a_protected := false; a_unl := false |}; k_enforce := true |}.
 Lemma selfsig_old_refuted :
   (forall fc fr, StronglySorted by_created (cert_then_rev fc fr)) /\
-  selfsig_flags {| u_ids := [97]; u_sigs := cert_then_rev SIGN 0 |} = SIGN /\
-  selfsig_flags_old {| u_ids := [97]; u_sigs := cert_then_rev SIGN 0 |} = 0 /\
+  selfsig_flags {| u_text := true; u_ids := [97]; u_sigs := cert_then_rev SIGN 0 |} = SIGN /\
+  selfsig_flags_old {| u_text := true; u_ids := [97]; u_sigs := cert_then_rev SIGN 0 |} = 0 /\
   perform (rev_key SIGN 0) OSign None = Run 0 false /\ perform_old_selfsig (rev_key SIGN 0) OSign None = NoUsage /\
   perform (rev_key 0 SIGN) OSign None = NoUsage /\ perform_old_selfsig (rev_key 0 SIGN) OSign None = Run 0 false.
 Proof.
@@ -347,12 +448,13 @@ Qed.
 Definition f7_sigs : list sigr := [ {| s_created := 1; s_flags := 32; s_qual := true; s_cert := false |}; {| s_created := 5; s_flags := 2; s_qual := true; s_cert := false |} ].
 Definition f7_key : pkey :=
   {| k_present := true; k_primary := true;
-     k_uids := [ {| u_ids := [97]; u_sigs := [ {| s_created := 0; s_flags := 32; s_qual := true; s_cert := true |} ] |} ];
-     k_bind := []; k_subs := [f7_sigs]; k_public := false; k_protected := false; k_unl := false; k_enforce := true |}.
+     k_uids := [ {| u_text := true; u_ids := [97]; u_sigs := [ {| s_created := 0; s_flags := 32; s_qual := true; s_cert := true |} ] |} ];
+     k_bind := []; k_subs := [ {| sb_sigs := f7_sigs; sb_attr := {| a_public := false; a_protected := false; a_unl := false |} |} ];
+     k_attr := {| a_public := false; a_protected := false; a_unl := false |}; k_enforce := true |}.
 
 Lemma flags_most_recent_prefix_refuted :
   StronglySorted by_created f7_sigs /\
-  exists f s', flags_sub_with oldest f7_sigs = FOk f /\ In s' f7_sigs /\ s_qual s' = true /\
+  exists f s', flags_sub_with (with_pick rules_now oldest) f7_sigs = FOk f /\ In s' f7_sigs /\ s_qual s' = true /\
                (forall s, In s f7_sigs -> s_qual s = true -> s_flags s = f -> s_created s < s_created s').
 Proof.
   split.
@@ -364,6 +466,70 @@ Qed.
 Lemma rebinding_changes_selection :
   perform f7_key OSign None = Run 1 false /\ perform_prefix f7_key OSign None = NoUsage.
 Proof. split; reflexivity. Qed.
+
+(* ------------------------------------------------------------------------------------------------ *)
+(* mixed protection, unknown user=, unbound subkeys, image-only identities: examples and the refuted earlier rules *)
+(* ------------------------------------------------------------------------------------------------ *)
+Definition a_plain : cattr := {| a_public := false; a_protected := false; a_unl := false |}.     (* private, no passphrase *)
+Definition a_locked : cattr := {| a_public := false; a_protected := true; a_unl := false |}.
+Definition a_unlocked : cattr := {| a_public := false; a_protected := true; a_unl := true |}.    (* inside `with key.unlock(...)` *)
+Definition a_pub : cattr := {| a_public := true; a_protected := false; a_unl := false |}.
+Definition bind_sig (c f : Z) : sigr := {| s_created := c; s_flags := f; s_qual := true; s_cert := false |}.
+Definition cert_sig (c f : Z) : sigr := {| s_created := c; s_flags := f; s_qual := true; s_cert := true |}.
+(* a primary key whose identity grants Authentication only, with a signing subkey; both with their own lock state *)
+Definition mixed_key (prim sub : cattr) : pkey :=
+  {| k_present := true; k_primary := true; k_uids := [ {| u_text := true; u_ids := [97]; u_sigs := [cert_sig 0 32] |} ];
+     k_bind := []; k_subs := [ {| sb_sigs := [bind_sig 0 SIGN]; sb_attr := sub |} ]; k_attr := prim; k_enforce := true |}.
+
+(* non-vacuity of the per-component conditions: unprotected primary + locked signing subkey refuses, unlocked it signs on the subkey;
+   a locked primary does not stop its usable subkey from signing, but it cannot certify; public receiver, public subkey: encryption
+   goes to the component that has the flag *)
+Lemma mixed_protection_example :
+  perform (mixed_key a_plain a_locked) OSign None = BadAttr IsUnlocked /\
+  perform (mixed_key a_plain a_unlocked) OSign None = Run 1 false /\
+  perform (mixed_key a_locked a_plain) OSign None = Run 1 false /\
+  perform (mixed_key a_locked a_plain) OCertify None = BadAttr IsUnlocked /\
+  perform (mixed_key a_locked a_locked) OSign None = BadAttr IsUnlocked /\
+  perform (mixed_key a_unlocked a_unlocked) OSign None = Run 1 false /\
+  perform (mixed_key a_pub a_pub) OSign None = BadAttr IsPublic.
+Proof. repeat split. Qed.
+
+(* before repair cab6d36 the conditions were those of the receiver: a private operation ran on a LOCKED component, and a usable
+   subkey was refused because the primary key was locked *)
+Lemma lockcheck_old_refuted :
+  perform_old_lockcheck (mixed_key a_plain a_locked) OSign None = Run 1 false /\
+  is_unlocked (comp_attr (mixed_key a_plain a_locked) 1) = false /\
+  perform (mixed_key a_plain a_locked) OSign None = BadAttr IsUnlocked /\
+  perform_old_lockcheck (mixed_key a_locked a_plain) OSign None = BadAttr IsUnlocked /\
+  is_unlocked (comp_attr (mixed_key a_locked a_plain) 1) = true /\ is_public (comp_attr (mixed_key a_locked a_plain) 1) = false /\
+  perform (mixed_key a_locked a_plain) OSign None = Run 1 false.
+Proof. repeat split. Qed.
+
+(* before repair a0cb78f: an unknown user= and a subkey without binding signature in effect raised (AttributeError / RuntimeError) *)
+Definition unbound_key : pkey :=
+  {| k_present := true; k_primary := true; k_uids := [ {| u_text := true; u_ids := [97]; u_sigs := [cert_sig 0 32] |} ];
+     k_bind := []; k_subs := [ {| sb_sigs := []; sb_attr := a_plain |}; {| sb_sigs := [bind_sig 0 SIGN]; sb_attr := a_plain |} ];
+     k_attr := a_plain; k_enforce := true |}.
+Lemma crash_old_refuted :
+  perform_old_crash (mixed_key a_plain a_plain) OSign (Some 98) = Crash CrashUser /\
+  perform (mixed_key a_plain a_plain) OSign (Some 98) = NoUser /\
+  perform (mixed_key a_plain a_plain) OSign (Some 97) = Run 1 false /\
+  perform_old_crash unbound_key OSign None = Crash CrashNoBinding /\
+  perform unbound_key OSign None = Run 2 false /\
+  perform unbound_key OEncrypt None = NoUsage.
+Proof. repeat split. Qed.
+
+(* before repair 1d6dbd1: a key whose only identity is a user attribute (its self-certification grants Sign) could not be used *)
+Definition image_only_key : pkey :=
+  {| k_present := true; k_primary := true; k_uids := [ {| u_text := false; u_ids := []; u_sigs := [cert_sig 0 SIGN] |} ];
+     k_bind := []; k_subs := []; k_attr := a_plain; k_enforce := true |}.
+Lemma identity_old_refuted :
+  perform_old_identity image_only_key OSign None = Crash CrashNoUserId /\
+  perform image_only_key OSign None = Run 0 false /\
+  (* a user id, wherever it stands, goes before the attribute *)
+  flags_primary [ {| u_text := false; u_ids := []; u_sigs := [cert_sig 0 SIGN] |}; {| u_text := true; u_ids := [97]; u_sigs := [cert_sig 0 32] |} ] None
+    = FOk (Z.lor CERTIFY 32).
+Proof. repeat split. Qed.
 
 (* ------------------------------------------------------------------------------------------------ *)
 (* decryption routing                                                                                *)
